@@ -13,7 +13,12 @@
                 variable's value verbatim. Left open (counted, not judged): a reference inside single
                 quotes (a shell would not substitute it) and a bare $N directly followed by text that
                 begins with a name character after quote removal ($MTX_PATH"x": which name is meant?)
-     Env        every pair the server passes is in the command's environment with exactly that value
+     Env        every pair the server passes is in the command's environment with exactly that value,
+                whatever the server process itself inherited: the AMBIENT environment of the server is
+                a dimension of the model (clean / the same names with other values / names that differ
+                only in case / unrelated names). Whether inherited variables that the server does not
+                pass reach the hook is said neither by the statement nor by docs/2-features/20-hooks.md:
+                left open (layer 1: they are inherited; a difference is DRIFT)
      ExitStatus a hook that exits with status N # 0 is reported as failed with that status: OnExit is
                 called with an error and the error names N
    Layer 1 (the code): the command line is split (shellquote: quotes removed) and os.Expand runs on each
@@ -29,6 +34,7 @@ CONSTANTS Families,     \* subset of {"one", "two", "mega", "exit"}
           MaxPieces,    \* pieces per argument in family "mega"
           Full,         \* TRUE: families "one", "two", "exit" with every profile and every pair; FALSE: a rotation
           Profiles,     \* value profiles (indices into ClassList)
+          Ambients,     \* ambient environments of the server process (subset of AmbList's elements)
           L1Variant     \* "fixed" (the current code) or the name of a deviation: "ExitCodeDiscarded"
 
 \* ------------------------------------------------------------------ code points
@@ -58,6 +64,17 @@ ClassAt(k) == ClassList[((k - 1) % Len(ClassList)) + 1]
 EnvOf(p) == [i \in 1..3 |-> [name |-> VarNames[i], class |-> ClassAt(p + i - 1), v |-> ClassVal(ClassAt(p + i - 1))]]
 ValueOf(env, name) == LET i == CHOOSE i \in 1..Len(env) : env[i].name = name IN env[i].v
 Defined(env, name) == \E i \in 1..Len(env) : env[i].name = name
+
+\* ------------------------------------------------------------------ ambient environment of the server process
+AmbList == <<"clean", "collide", "case", "unrelated">>
+AV(n, v) == [name |-> n, v |-> v]
+AmbCollide == <<AV("MTX_PATH", Cp("outer/path")), AV("MTX_QUERY", Cp("outer=1&x=$MTX_PATH")), AV("G1", Cp("outer g1"))>>
+AmbCase == <<AV("mtx_path", Cp("lower/path")), AV("Mtx_Query", Cp("mixed=1")), AV("g1", Cp("lower g1"))>>
+AmbUnrelated == <<AV("VF21_AMB_KEEP", Cp("kept value")), AV("VF21_AMB_EMPTY", <<>>)>>
+AmbientEnv(a) == CASE a = "clean" -> <<>> [] a = "collide" -> AmbCollide [] a = "case" -> AmbCase [] a = "unrelated" -> AmbUnrelated
+\* every name that any ambient sets (the harness removes them all before it installs one ambient)
+AmbientNames == {AmbCollide[i].name : i \in 1..Len(AmbCollide)} \cup {AmbCase[i].name : i \in 1..Len(AmbCase)}
+                \cup {AmbUnrelated[i].name : i \in 1..Len(AmbUnrelated)}
 
 \* ------------------------------------------------------------------ templates
 Lit(s, q) == [t |-> "lit", s |-> s, q |-> q, name |-> "", form |-> "", cp |-> Cp(s)]
@@ -95,6 +112,13 @@ ArgCountOK(r) == Len(r.argv) = Len(r.tmpl)
 ArgValueBad(r) == {i \in 1..Len(r.tmpl) : i <= Len(r.argv) /\ ~OpenArg(r.tmpl[i]) /\ r.argv[i] # ExpectedArg(r.tmpl[i], r.env)}
 \* r.envseen[i] = the values found in the command's environment under the name of r.env[i]
 EnvBad(r) == {i \in 1..Len(r.env) : ~(Len(r.envseen[i]) >= 1 /\ \A k \in 1..Len(r.envseen[i]) : r.envseen[i][k] = r.env[i].v)}
+\* the bad server-supplied variable shows the value the server process inherited under the same name
+EnvInheritedWins(r) == {i \in EnvBad(r) : \E k \in 1..Len(r.ambient) :
+                           r.ambient[k].name = r.env[i].name /\ r.envseen[i] = <<r.ambient[k].v>>}
+\* layer 1 only: an inherited variable that the server does not pass reaches the hook unchanged
+\* (r.ambseen[k] = the values found in the command's environment under the name of r.ambient[k])
+InheritedKept(r) == \A k \in 1..Len(r.ambient) :
+                        Defined(r.env, r.ambient[k].name) \/ r.ambseen[k] = <<r.ambient[k].v>>
 \* r.onexit = the calls of OnExit: [nonnil, nums (the integers in the error text)]
 ExitStatusOK(r) ==
     r.status # 0 => /\ Len(r.onexit) >= 1
@@ -144,7 +168,7 @@ ASSUME L1Variant \in {"fixed"} \cup Deviations
 \* ------------------------------------------------------------------ bounded model
 \* families of cases:
 \*   "one"   a single argument of one piece                                  (12, x profiles if Full)
-\*   "two"   two arguments of one piece each                                 (24; 144 x profiles if Full)
+\*   "two"   two arguments of one piece each                                 (24; 144 x 2 profiles if Full)
 \*   "mega"  ONE command whose arguments are all arguments of <= MaxPieces pieces, in a fixed order
 \*           (arguments are independent of each other in the statement, so one execution judges them all)
 \*   "exit"  $MTX_PATH "two words" with every exit status, with and without restart
@@ -158,14 +182,30 @@ Mega == Args1 \o (IF MaxPieces >= 2 THEN Args2 ELSE <<>>) \o (IF MaxPieces >= 3 
 
 Statuses == <<0, 1, 2, 3, 127, 255>>
 
-VARIABLES fam, first, prof, done
-vars == <<fam, first, prof, done>>
-Init == fam \in Families /\ first \in Pieces /\ prof \in Profiles /\ done = FALSE
+\* which ambient environments a (family, first piece, profile) is executed in: clean and collide for every
+\* "mega" command (the other two for two profiles); Full model: all four for family "one", clean and collide
+\* for "exit", a rotation for the pairs of family "two"; small model: rotations
+AmbAt(k) == AmbList[(k % Len(AmbList)) + 1]
+AmbOK(f, fp, p, a) ==
+    IF Full THEN CASE f = "two"  -> a = AmbAt(p)
+                   [] f = "exit" -> a \in {"clean", "collide"}
+                   [] f = "mega" -> a \in {"clean", "collide"} \/ p \in {2, 7}
+                   [] OTHER -> TRUE
+    ELSE CASE f = "one"  -> a = AmbAt(PieceNo(fp))
+           [] f = "two"  -> a = AmbAt(PieceNo(fp) + 1)
+           [] f = "exit" -> a = (IF p = 1 THEN "clean" ELSE "collide")
+           [] f = "mega" -> a \in {"clean", "collide"} \/ p \in {2, 7}
+
+VARIABLES fam, first, prof, amb, done
+vars == <<fam, first, prof, amb, done>>
+Init == fam \in Families /\ first \in Pieces /\ prof \in Profiles /\ amb \in Ambients /\ done = FALSE
+        /\ AmbOK(fam, first, prof, amb)
         /\ (fam = "exit" => first = PieceList[5])
         /\ (fam = "mega" => first = PieceList[1])
         /\ ((fam \in {"one", "two"} /\ ~Full) => prof = (PieceNo(first) % Len(ClassList)) + 1)
+        /\ ((fam = "two" /\ Full) => prof % 5 = PieceNo(first) % 5)          \* two profiles per first piece
         /\ ((fam = "exit" /\ ~Full) => prof \in {1, 4})
-Next == ~done /\ done' = TRUE /\ UNCHANGED <<fam, first, prof>>
+Next == ~done /\ done' = TRUE /\ UNCHANGED <<fam, first, prof, amb>>
 Spec == Init /\ [][Next]_vars
 
 Templates ==
@@ -178,7 +218,8 @@ Templates ==
 Case(tm, status, restart) ==
     LET env == EnvOf(prof) IN
     [fam |-> fam, tmpl |-> tm, args |-> [i \in 1..Len(tm) |-> RenderArg(tm[i])], prof |-> prof, env |-> env,
-     status |-> status, restart |-> restart,
+     status |-> status, restart |-> restart, amb |-> amb, ambient |-> AmbientEnv(amb),
+     ambnames |-> AmbientNames \cup {VarNames[i] : i \in 1..Len(VarNames)},
      exp |-> [i \in 1..Len(tm) |-> ExpectedArg(tm[i], env)], open |-> [i \in 1..Len(tm) |-> OpenArg(tm[i])],
      l1 |-> L1Argv(tm, env)]
 
